@@ -3,8 +3,9 @@ CONSTANTS
   MaxEntries = 4
   Counts = {100, 101, 149, 207, 5000}
   MaxReads = 5
+  WithIterFail = FALSE
 SPECIFICATION Spec
-INVARIANTS OffsetIsPrefix WholeAndBounded
+INVARIANTS OffsetIsPrefix WholeAndBounded FetchedCoversDelivered
 PROPERTIES Progress EmptyAtEnd
 VIEW View
 ACTION_CONSTRAINT Emit
